@@ -1214,7 +1214,12 @@ def specs(draw, names: Names | None = None, *, max_depth=3, hashable=False, key=
             # few member types, repeated: (A, A, B), (A, B, A), (A, A, B, B, A), (A, A, A) - positions which share a
             # routine next to positions which don't
             pool = [draw(sub(hashable=hashable)) for _ in range(draw(st.integers(1, 2)))]
-            a = [copy.deepcopy(pool[i % len(pool)]) for i in draw(st.lists(st.integers(0, 1), min_size=3, max_size=5))]
+            idx = [i % len(pool) for i in draw(st.lists(st.integers(0, 1), min_size=3, max_size=5))]
+            # the member drawn first comes first: a later member may refer to classes the earlier one declares (a reference must
+            # not precede the declaration it points to - for a nested class its text would name nothing)
+            if idx[0] != 0:
+                idx = [1 - i for i in idx]
+            a = [copy.deepcopy(pool[i]) for i in idx]
         else:
             a = [draw(sub(hashable=hashable)) for _ in range(n)]
         g = {"k": "tuple", "a": a, "sp": draw(st.sampled_from(SPELLINGS["tuple"]))}
